@@ -20,7 +20,7 @@ from vlib import sqlo
 
 PROP = 'C19'
 META = {
-    'extractors': ['pyevents'],
+    'extractors': ['pyevents', 'pyevmain'],
     'technique': ('Lean 4 proof (induction over the listener list for every send; per-operation log-shape equations '
                   'for every state and listener configuration; induction over histories; induction over the '
                   'chain depth) + differential correspondence on the merged signal/statement log'),
@@ -38,6 +38,15 @@ META = {
                    'C19_translated_send_eq_model proves the translated send = the model function deliver, '
                    'C19_translated_listen_eq_model that listen appends one connection, with pydispatch (connect / send: every '
                    'connected receiver once in connection order) as a stated parameter. '
+                   'TRANSLATOR tie 2 (vlib/extractors/pyevmain.py -> Extracted/PyEvMain.lean, Model/PyEv.lean, Model/EvMainX.lean): '
+                   'SQLObject.__init__, _create, _SO_finishCreate (+ its postponed _send_RowCreatedSignal thunk), _init, _SO_setValue, set, '
+                   'syncUpdate and the signal frame of destroySelf are translated WITH their sqlmeta.send calls and post-callback loops on '
+                   'every run; C19_translated_set_eq_model / _syncUpdate_eq_model / _destroySelf_eq_model prove the translated programs = '
+                   'opSet / opSyncUpdate / opDestroy for every listener list, state and kwargs (eager and lazy), and '
+                   'C19_translated_events_once_in_order / _rewrite_is_stored / _post_funcs_run_after restate the property about the '
+                   'translated source; __init__/_create/_SO_finishCreate/_init/_SO_setValue are run on concrete configurations only '
+                   '(kernel-evaluated witnesses; their all-inputs statement remains the hand model + correspondence); connection, cache, '
+                   'validators and the cascade inside destroySelf are stated parameters (header of Model/EvMainX.lean). '
                    'Trusted: Lean kernel; pydispatch delivery order (modelled as connection order, checked by the '
                    'correspondence run); the sampling correspondence.  The lazy path is stated as the code behaves: a lazy '
                    'assign/set delivers only the before-event, syncUpdate delivers one write and one after-event for all '
